@@ -89,6 +89,24 @@ func hasCustomFunc(customFunc *config.Func, t object.ObjectType, funcName string
 	}
 }
 
+// maxRepeatedLen is the maximum length in bytes of a string produced by repeating another string
+const maxRepeatedLen = 1 << 30
+
+// repeatString repeats s count times. A negative count repeats nothing,
+// and a result longer than maxRepeatedLen is an error instead of exhausting the memory
+func repeatString(s string, count int, funcName string, objType object.ObjectType) (string, error) {
+	if count <= 0 || len(s) == 0 {
+		return "", nil
+	}
+
+	if count > maxRepeatedLen/len(s) {
+		msg := fmt.Sprintf(fail.ErrFuncResultTooLong, funcName, objType, maxRepeatedLen)
+		return "", errors.New(msg)
+	}
+
+	return strings.Repeat(s, count), nil
+}
+
 func addDecimals(receiver object.Object, objType object.ObjectType, args ...object.Object) (object.Object, error) {
 	var val string
 
@@ -132,10 +150,13 @@ func addDecimals(receiver object.Object, objType object.ObjectType, args ...obje
 		decimals = int(decimalArg.Value)
 	}
 
-	zeros := strings.Repeat("0", decimals)
-
-	if decimals == 0 {
+	if decimals <= 0 {
 		return &object.Str{Value: val}, nil
+	}
+
+	zeros, err := repeatString("0", decimals, "decimal", objType)
+	if err != nil {
+		return nil, err
 	}
 
 	return &object.Str{Value: val + separator + zeros}, nil
